@@ -257,7 +257,23 @@ def run_case(ctx, k, rng):
                         continue
                 ops.append({"op": "fit", "value": [d.tolist() for d in dg]})
                 arg = dg if (len(dg) > 1 or rng.random() < 0.5) else dg[0]
-                P.fit(arg, skew=True)
+                if rng.random() < 0.1:
+                    # a sample without any class in this degree: an empty member in the fitted collection. The call may refuse it; if it
+                    # accepts it, the ranges must still be those of the points that are there
+                    arg = list(dg)
+                    arg.insert(int(rng.integers(0, len(arg) + 1)), np.zeros((0, 2)))
+                    ops[-1]["with_empty_member"] = True
+                    ctx.note("fits with an empty member")
+                    try:
+                        P.fit(arg, skew=True)
+                    except Exception as e:
+                        ctx.note("fit refused a collection with an empty member")
+                        same_state = (P.birth_range, P.pers_range, P.pixel_size, P.width, P.height) == tuple(before[x] for x in ("birth_range", "pers_range", "pixel_size", "width", "height"))
+                        ctx.check("a refused fit leaves the geometry as it was", same_state, before=before, after={"birth_range": P.birth_range, "pers_range": P.pers_range})
+                        del INV_LOG[:]
+                        continue
+                else:
+                    P.fit(arg, skew=True)
                 asked = {"birth_range": (float(bp[:, 0].min()), float(bp[:, 0].max())),
                          "pers_range": (float(bp[:, 1].min()), float(bp[:, 1].max()))}
                 nontriv = nontriv or inexact(asked["birth_range"][1] - asked["birth_range"][0], cur)
